@@ -21,15 +21,16 @@ CLAIMED = {
     "C04": ("proof",
             "Deductive proof of the per-message clauses of the statement on the real AsyncFIXConnection._process_message "
             "with every callee in connection.py / session.py executed from the real source (only _process_resend is "
-            "replaced by an over-approximating contract): every logged-on pre-state satisfying the connection invariant x "
+            "called by contract - a relation proved on its real body in the same run): every logged-on pre-state satisfying the connection invariant x "
             "every message with the session's CompIDs (type, MsgSeqNum, PossDupFlag, GapFillFlag, NewSeqNo symbolic, "
             "unbounded integers, arbitrary text). Loop-free, so no bound. Two known findings (C04-KF1 Reset-mode "
             "SequenceReset moves the counter backwards, C04-KF2 Logon inside a session) are excluded by class and the "
             "residue is proved. The history sentences (strictly increasing, nothing twice) follow by induction from "
             "deliver.only_expected + deliver.consumed + counter.* (induction not mechanised).",
             "DESIGN.md 4/C04",
-            "assumed: _process_resend contract (writes only retransmissions / gap fills, may stop half way; C06 not built), "
-            "Codec.encode sequence-number choice (proved in C05), Journaler contracts, hooks do not touch connection "
+            "the callee contract of _process_resend (relation over four kinds of outcome) is proved on the real body in "
+            "the same run (task refinement[_process_resend], the clauses this proof needs); assumed: Codec.encode "
+            "sequence-number choice (proved in C05), Journaler contracts (proved in C13), hooks do not touch connection "
             "state, transport calls do not raise; trusted: pyvc (path witnesses replayed on CPython), z3",
             "contract-based deductive verification: VCs generated from the AST of the real functions, discharged by z3"),
     "C11": ("proof",
@@ -43,8 +44,10 @@ CLAIMED = {
             "(not mechanised).",
             "DESIGN.md 4/C11",
             "assumed: LOGON_INITIAL_SENT implies role INITIATOR (its only assignment site is proved to set both), decoder "
-            "always supplies BeginString, _process_resend / encode / journal contracts, hooks do not touch connection "
-            "state, transport calls do not raise; trusted: pyvc (path witnesses replayed on CPython), z3",
+            "always supplies BeginString, encode / journal contracts (proved in C05 / C13), hooks do not touch connection "
+            "state, transport calls do not raise; the callee relation of _process_resend is proved on the real body in "
+            "the same run (the clauses this proof needs: role / bookkeeping and state); trusted: pyvc (path witnesses "
+            "replayed on CPython), z3",
             "contract-based deductive verification: VCs generated from the AST of the real functions, discharged by z3"),
     "C12": ("proof",
             "Deductive proof of the watchdog as a step function: one iteration of the real heartbeat_timer_task loop body "
@@ -56,8 +59,9 @@ CLAIMED = {
             "for all H and all tick jitter eps in [0,1]; their composition over the tick sequence is by hand (not mechanised).",
             "DESIGN.md 4/C12",
             "assumed: A-TICK (ticks at most 1+eps apart), A-CLOCK (clock non-decreasing, >= 1, stored clocks read earlier), "
-            "floats as reals, encode / journal contracts, hooks and transport as in C05; trusted: pyvc (path witnesses "
-            "replayed on CPython with a patched clock), z3",
+            "floats as reals, encode / journal contracts (proved in C05 / C13), hooks and transport as in C05; that serving "
+            "a ResendRequest leaves the pending TestReqID and the clock alone is proved on the real _process_resend in "
+            "the same run; trusted: pyvc (path witnesses replayed on CPython with a patched clock), z3",
             "contract-based deductive verification: VCs generated from the AST of the real functions, discharged by z3"),
     "C05": ("proof",
             "Deductive proof of the per-call clauses of the statement on the real AsyncFIXConnection.send_msg (all 19 "
@@ -66,8 +70,11 @@ CLAIMED = {
             "frame obligation that encode / write / persist_msg(OUTBOUND) are only reached through send_msg. The history "
             "statement follows by induction from these clauses and the invariant they re-establish (induction not mechanised).",
             "DESIGN.md 4/C05",
-            "assumed: Journaler.persist_msg abstract contract (its SQL body is proved against the map view in C13), hooks do not touch connection state, "
-            "transport write/drain do not raise; trusted: pyvc (60+ path witnesses per run replayed on CPython), z3",
+            "decided in the same run (shared tasks): Journaler.persist_msg / find_seq_no on the SQL bodies (C13 clauses, "
+            "OUTBOUND), their refinement to the abstract journal the send_msg proof calls, durability of a store (C08 "
+            "clauses), a transport fault between write() and drain(), stored = live after a served ResendRequest; "
+            "assumed: hooks do not touch connection state, A-SQL / A-SQLTX; trusted: pyvc (path witnesses replayed on "
+            "CPython), z3, cvc5",
             "contract-based deductive verification: VCs generated from the AST of the real functions, discharged by z3"),
     "C13": ("proof",
             "Deductive proof that every Journaler method (__init__, create_or_load, sessions, find_seq_no, persist_msg, "
@@ -80,7 +87,8 @@ CLAIMED = {
             "repaired (fix: commits a3bce9c sessions() off by one, f21dd5c set_seq_num without commit).",
             "DESIGN.md 4/C13 and 9",
             "assumed: A-SQL relational semantics of the statement shapes used (sqlmodel.py; witnesses of every path are "
-            "replayed on real sqlite3), 64-bit range of numbers ignored, per-row loop rule, induction over operation "
+            "replayed on real sqlite3; range bounds as integers or as their decimal text, converted by the INTEGER column's "
+            "affinity), 64-bit range of numbers ignored, per-row loop rule, induction over operation "
             "sequences from per-operation clauses + table invariants; get_all_msgs (dynamic SQL) is not under contract; "
             "trusted: pyvc, z3, cvc5",
             "contract-based deductive verification: VCs generated from the AST of the real functions and their SQL text, "
@@ -239,7 +247,9 @@ CLAIMED = {
             "DESIGN.md 4/C14 and 9",
             "assumed: A-COOP (tasks switch only at suspending awaits; which awaits suspend), the rely (other tasks only send "
             "new messages; a concurrent disconnect is C11's task), induction over the schedule not mechanised, application "
-            "retransmissions through send_msg excluded; journal / encode contracts, hooks, transport as in C05; trusted: pyvc, z3",
+            "retransmissions through send_msg excluded; hooks, transport as in C05; decided in the same run (shared tasks): "
+            "Codec.encode's number choice, Journaler.persist_msg (OUTBOUND) on the SQL body with its refinement lemma, the "
+            "structural part of the callee relation of _process_resend; trusted: pyvc, z3",
             "contract-based deductive verification (rely / guarantee at suspension points): VCs generated from the AST of "
             "the real coroutines, discharged by z3"),
     "C02": ("proof",
@@ -283,10 +293,11 @@ CLAIMED = {
             "one known finding (C06-KF1: bounded EndSeqNo - tail rows deleted and gap-filled).",
             "DESIGN.md 4/C06 and 9",
             "assumed: I7 (a journaled OUTBOUND row k decodes to the message sent under k - rests on the encode/decode round "
-            "trip C01, not built), recover_messages contract (proved in C13), should_replay pure, journals with holes "
-            "(left by an earlier multi-number gap fill) only get the non-chain clauses; pre-states ACTIVE and "
-            "RESENDREQ_AWAITING; no native replay family yet for this property (refutations are reported with the model, "
-            "no-failing-input-found); trusted: pyvc incl. the invariant loop rule, z3",
+            "trip, which C01 decides by a bounded stand-in only), should_replay pure, journals with holes (left by an "
+            "earlier multi-number gap fill) only get the non-chain clauses; pre-states ACTIVE and RESENDREQ_AWAITING "
+            "(every connected state for the callee relation the dispatcher proofs use, task refinement[_process_resend]); "
+            "decided in the same run (shared tasks): Codec.encode's number choice, Journaler.set_seq_num / persist_msg / "
+            "recover_messages on the SQL bodies with their refinement lemmas; trusted: pyvc incl. the invariant loop rule, z3",
             "contract-based deductive verification: VCs generated from the AST of the real function with an inductive "
             "loop invariant, discharged by z3"),
     "C09": ("proof",
@@ -300,10 +311,12 @@ CLAIMED = {
             "finding (C09-KF1 inbound SequenceReset leaves the stored inbound counter behind; pinned by the suite). The "
             "two-endpoint sentence (session continues after reconnect without ResendRequest) is not decided.",
             "DESIGN.md 4/C09 and 9",
-            "not decided: the continuation sentence (needs the peer, cf. C07); a kill between on_message() and the "
-            "journaling of that inbound message re-delivers it (deliver-then-journal) - out of scope; assumed: journal "
-            "contracts (proved in C13/C08), _process_resend contract (its effect on the stored outbound counter excluded), "
-            "encode contract, hooks, transport; trusted: pyvc, z3",
+            "not decided: the continuation sentence (needs the peer, cf. C07); program-point obligation on inbound "
+            "processing: an application message is journaled as received only after on_message returned (a kill inside "
+            "the callback leaves the journal still expecting it); decided in the same run (shared tasks): the journal "
+            "writes and create_or_load on the SQL bodies with C13's and C08's clauses, Codec.encode's number choice, the "
+            "callee relation of _process_resend (its effect on the stored outbound counter is the task "
+            "sync[process_resend]); assumed: hooks, transport, A-SQL / A-SQLTX; trusted: pyvc, z3",
             "contract-based deductive verification: VCs generated from the AST of the real functions, discharged by z3"),
     "C08": ("proof",
             "Deductive proof of crash consistency over a transactional ghost of the sqlite3 contract (pending / durable "
